@@ -90,7 +90,7 @@ func (g *gen) name(p string) string { g.n++; return fmt.Sprintf("%s%d", p, g.n) 
 // prefix, a name with every punctuation an identifier may have. Each special name is used at most once
 // per set (two definitions of one name would just be a duplicate).
 func (g *gen) defName(p string) string {
-	if g.t.Rare(14) {
+	if len(g.usedSpecial) == 0 && g.t.Rare(250) { // (one per set at most, in about one set in six: the pinned parser rejects most of them, and the set is then lost for world C11)
 		pool := []string{"string", "uint8", "int64", "union", "enumeration", "boolean", "empty", "leafref", "identityref", "bits", "binary", "decimal64", "instance-identifier",
 			"leaf", "container", "type", "default", "module", "grouping", "config", "xml-thing", "XMLname", "a.b-c_d", "_u", "x-1.2"}
 		n := pool[g.t.Draw(len(pool))]
@@ -1062,6 +1062,24 @@ func (g *gen) containersOf(m *Module) []*DNode {
 	return out
 }
 
+// choicesOf lists the choice and case nodes of m's data tree (targets for augments that add a case / fill a case).
+func (g *gen) choicesOf(m *Module) []*DNode {
+	var out []*DNode
+	var walk func(n *DNode)
+	walk = func(n *DNode) {
+		if n.Kind == "choice" || n.Kind == "case" {
+			out = append(out, n)
+		}
+		for _, k := range n.Kids {
+			walk(k)
+		}
+	}
+	for _, n := range m.Top {
+		walk(n)
+	}
+	return out
+}
+
 func (g *gen) augments(m *Module) {
 	t := g.t
 	if m.Sub {
@@ -1090,12 +1108,52 @@ func (g *gen) augments(m *Module) {
 		if t.Rare(4) {
 			a.Add(S("when", "true()"))
 		}
+		if f := g.ifFeature(m); f != nil && t.Rare(3) {
+			a.Add(f)
+		}
+		if t.Rare(5) {
+			// the augment also brings a leaf-list, a list or a choice
+			switch t.Draw(3) {
+			case 0:
+				a.Add(S("leaf-list", g.name("all"), S("type", "string")))
+			case 1:
+				k := g.name("ak")
+				a.Add(S("list", g.name("als"), S("key", k), S("leaf", k, S("type", "string"))))
+			case 2:
+				a.Add(S("choice", g.name("ach"), S("leaf", g.name("al"), S("type", "string")), S("case", g.name("acs"), S("leaf", g.name("al"), S("type", "int8")))))
+			}
+			g.set.Probes["augment_adds_list_or_choice"] = true
+		}
 		if target.Mod != own {
 			g.set.Probes["augment_cross_module"] = true
 		}
 		if strings.HasPrefix(target.Name, "ac") {
 			g.set.Probes["augment_onto_augment"] = true
 		}
+		m.Root.Add(a)
+	}
+	// augment a choice (with a new case or a shorthand leaf) or a case (with one more leaf)
+	for _, v := range g.visible(m) {
+		chs := g.choicesOf(v)
+		if len(chs) == 0 || !t.Rare(5) {
+			continue
+		}
+		target := chs[t.Draw(len(chs))]
+		a := S("augment", g.schemaPath(m, target))
+		own := g.owner(m)
+		if target.Kind == "choice" && t.Coin() {
+			cs := &DNode{Kind: "case", Name: g.name("acs"), Mod: own, Parent: target, Config: true}
+			l := g.leaf(own, cs, true)
+			cs.Stmt = S("case", cs.Name, l.Stmt)
+			cs.Kids = append(cs.Kids, l)
+			target.Kids = append(target.Kids, cs)
+			a.Add(cs.Stmt)
+		} else {
+			l := g.leaf(own, target, true)
+			target.Kids = append(target.Kids, l)
+			a.Add(l.Stmt)
+		}
+		g.set.Probes["augment_of_choice_or_case"] = true
 		m.Root.Add(a)
 	}
 }
@@ -1131,6 +1189,25 @@ func (g *gen) deviations(m *Module) {
 			}
 		case 2:
 			d.Add(S("deviate", "replace", S("type", "string")))
+		}
+		if t.Rare(3) {
+			// other properties a deviation may touch
+			d.Kids = d.Kids[:0]
+			switch t.Draw(6) {
+			case 0:
+				d.Add(S("deviate", "replace", S("config", "false")))
+			case 1:
+				d.Add(S("deviate", "add", S("must", "true()")))
+			case 2:
+				d.Add(S("deviate", "replace", S("mandatory", []string{"true", "false"}[t.Draw(2)])))
+			case 3:
+				d.Add(S("deviate", "add", S("default", "1")))
+			case 4:
+				d.Add(S("deviate", "delete", S("units", "widgets")))
+			case 5:
+				d.Add(S("deviate", "replace", S("type", "uint8")), S("deviate", "add", S("units", "u")))
+			}
+			g.set.Probes["deviation_of_other_properties"] = true
 		}
 		g.set.Probes["deviation"] = true
 		m.Root.Add(d)
